@@ -138,8 +138,10 @@ def _propagate(case, masks):
     if "before" in tilts:
         w = w * lentil.Tilt(x=ang[0], y=-ang[1])
     for (a, o), m in zip(planes, masks):
-        w = w * lentil.Pupil(amplitude=a.copy(), opd=o.copy(), mask=m.copy(), pixelscale=cm.as_ps(case["dx"]),
-                             focal_length=case["z"])
+        pl, _variant = cm.derive_obj(lentil.Pupil(amplitude=a.copy(), opd=o.copy(), mask=m.copy(),
+                                                  pixelscale=cm.as_ps(case["dx"]), focal_length=case["z"]),
+                                     a.shape[0] + a.shape[1] + int(np.count_nonzero(a)))
+        w = w * pl
         if any(np.ndim(f.data) == 2 and f.data.size == 1 for f in w.data):
             # the overlap of two planes' supports left a one-sample field (infinite constant, known finding)
             raise Skip("single_sample_intermediate_field(known)")
